@@ -2,7 +2,7 @@
 
 The implementation is run through three paths (constructor, a second create_jdd() on the same
 object, the JointDegreeDistribution.load_joint_degree dispatch which itself calls create_jdd a second
-time); every observed table is (a) compared with the model's table (keys exactly, values via
+time), and both loaders are read again after a further loader with other parameters was built; every observed table is (a) compared with the model's table (keys exactly, values via
 core.close) and (b) judged by the verified checker c07_check, which encodes the property itself
 (support, mass per degree, division within a degree, total 1)."""
 import itertools
@@ -18,8 +18,11 @@ RULE = ("case = (loader in {split-degree, delta}, probs over 1..4 clique topolog
         "{1/4,1/2}, every target position; thorough: <=3 topologies, lo<=2, fp in {0,1/4,1/2}); then a structured "
         "enumeration over (loader, #topologies, lo, width, target position) and seeded "
         "random cases, then a malformed stream (no topology, empty motif_sizes, W_k = 0, all-zero fp, empty range) "
-        "whose expected result is the model's exception class; each case observes three tables (constructor, "
-        "second create_jdd() on the same object, load_joint_degree dispatch); a quarter of the random cases are "
+        "whose expected result is the model's exception class; each case observes five tables (constructor, "
+        "second create_jdd() on the same object, load_joint_degree dispatch, then - two loaders alive at once - the "
+        "first loader's and the dispatched loader's jdd READ AGAIN, nothing called on them, after a further loader of "
+        "the same class with other fp / probs / number of topologies / range was built directly and through the "
+        "dispatch; the same re-reading follows every history step); a quarter of the random cases are "
         "HISTORIES on one object: the caller edits the same probs / motif_sizes / bound lists and fp's table in "
         "place and / or damages the returned table (clear, bogus entries, setter, mutating the rows the generator "
         "returned), then calls create_jdd() again - every table is judged against the current contents; the "
@@ -394,6 +397,31 @@ def impl(case):
 
     out = []
     damaged = []
+    alive = []   # every loader built after the judged one stays alive until the case ends
+
+    def second_loader(ph, n):
+        """a SECOND loader of the same class (and, every other time, of the other class / through the dispatch) with
+        OTHER parameters (other fp, other probs, other number of topologies, other range), built from objects of its
+        own while the judged loader is alive; its own outcome is irrelevant"""
+        T = len(ph["probs"])
+        T2 = max(1, T + (1 if n % 2 == 0 else -1))
+        lo2 = max(0, ph["lo"] - 1) if n % 3 else ph["lo"] + 1
+        if lo2 > 12:
+            lo2 = 1 + n % 3   # keep the second loader cheap next to the large-degree cases
+        p2 = {N.FP: (lambda k: 0.125 + 0.0625 * ((k + n) % 4)), N.PROBS: [0.625] + [0.25] * (T2 - 1),
+              N.MOTIF_SIZES: [i + 2 for i in range(T2)], N.LOW_HIGH_DEGREE_BOUND: (lo2, lo2 + 3 + n % 2)}
+        if case["mode"] == 1:
+            p2[N.TARGET_K] = lo2 + 1
+        try:
+            alive.append(cls(p2))
+            if n % 2:
+                p2 = dict(p2)
+                p2[N.JOINT_DEGREE_TYPE] = "split_degree" if case["mode"] == 0 else "delta"
+                alive.append(JointDegreeDistribution.load_joint_degree(p2))
+        except core.ImplTimeout:
+            raise
+        except Exception:  # noqa: BLE001
+            pass
 
     def inputs_intact(ph, p0):
         """the code must leave the caller's objects exactly as the caller wrote them (content and order)"""
@@ -424,7 +452,12 @@ def impl(case):
         p3[N.JOINT_DEGREE_TYPE] = "split_degree" if case["mode"] == 0 else "delta"
         obj3 = JointDegreeDistribution.load_joint_degree(p3)
         t3 = _table(obj3.jdd)
-        out.append({"tables": [t1, t2, t3]})
+        # TWO LOADERS ALIVE AT ONCE, THE FIRST ONE READ AGAIN: nothing is called on obj; what it exposes must still
+        # be the table of ITS parameters after another loader (other parameters) was built in the same process
+        second_loader(phases[0], 0)
+        t4 = _table(obj.jdd)
+        t5 = _table(obj3.jdd)
+        out.append({"tables": [t1, t2, t3, t4, t5]})
         inputs_intact(phases[0], p0)
         if list(obj3.motif_sizes) != list(case["motif_sizes"]):
             damaged.append("motif_sizes property differs from the input")
@@ -462,7 +495,9 @@ def impl(case):
             tab.clear()
             tab.update({ph["lo"] + i: x for i, x in enumerate(_floats(ph["fps"]))})
             obj.create_jdd()
-            out.append({"tables": [_table(obj.jdd)]})
+            ta = _table(obj.jdd)
+            second_loader(ph, len(out))
+            out.append({"tables": [ta, _table(obj.jdd)]})
             inputs_intact(ph, None)
         except core.ImplTimeout:
             raise
@@ -512,11 +547,15 @@ def _cmp_table(t, m, which):
     return None
 
 
-NAMES0 = ("constructor", "second create_jdd()", "load_joint_degree")
+NAMES0 = ("constructor", "second create_jdd()", "load_joint_degree",
+          "reading the first loader again after a second loader with other parameters was built",
+          "reading the load_joint_degree loader again after a second loader with other parameters was built")
 
 
 def _names(i):
-    return NAMES0 if i == 0 else (f"create_jdd() of history step {i}",)
+    return NAMES0 if i == 0 else (f"create_jdd() of history step {i}",
+                                  f"reading the loader again after history step {i} and the construction of another "
+                                  f"loader with other parameters")
 
 
 def compare(case, impl_obs, model):
